@@ -134,7 +134,12 @@ func (c *simCluster) phantomAnswer(n *simNode) {
 				return
 			}
 			var ar *appendResp
-			switch y := c.rnd.Intn(20); {
+			y := c.rnd.Intn(20)
+			if q, _ := decodeAppendWire(m.wire); q != nil && q.prevLogIndex <= rp.matchIndex && y >= 13 && y < 18 {
+				// a follower cannot reject a request whose previous entry it has acknowledged (nor one without a previous entry)
+				y = 0
+			}
+			switch {
 			case y < 13:
 				ar = &appendResp{resp{r.term, success, nil}, m.reqLast}
 			case y < 18:
